@@ -16,7 +16,7 @@ func init() {
 		Technique: "static analysis: decoded byte ranges vs authenticated byte ranges (layout tables + AEAD argument ranges), edge-cut path search for release-after-authentication, panic-safety over everything reachable from the receive path, effect-freedom of the decode-error path",
 		Decided: "(a) which header bytes the decoder acts on and which byte ranges the AEAD authenticates (nonce range, additional data, sealed region): every decoded range must lie inside — the two that do not (closing flag, extra length) are reported as the known finding; with a cipher configured no frame field is released and no success is returned on any path that has not passed a successful Open over the whole sealed region; " +
 			"(b) every panic-capable instruction reachable from the receive path is proven in bounds by the compiler or justified; (c) a decode error returns before any session state is touched and does not end the read loop.",
-		NotDecided: "AEAD security itself (forgery probability); replay of whole valid frames (the sequence window is C02's concern).",
+		NotDecided:  "AEAD security itself (forgery probability); replay of whole valid frames (the sequence window is C02's concern).",
 		Assumptions: []string{"AES-GCM / ChaCha20-Poly1305 authenticate nonce, ciphertext and AAD", "NonceSize() = 12 for the three constructors"},
 	})
 }
